@@ -237,11 +237,15 @@ def idle_rule(ctx: Ctx):
     for cname in ("Idle", "ChargeQueueing"):
         sc = states.state_class(repo, cname)
         pu = repo.method(sc.cls, "_perform_update")
-        ok = False
+        ok = True
+        n_succ = 0
         for p in flow.paths(pu.node):
-            if p.kind == "return" and flow.classify_result(p.value) == "delegate":
+            if p.kind == "return" and flow.classify_result(p.value) in ("delegate", "ok", "pair"):
+                n_succ += 1
                 d = states.ndump(p.value, {"self": "SELF", "sim": "SIM", "env": "ENV"})
-                ok = d.startswith("simulation_state_ops.modify_vehicle(SIM, ") and ".idle(SIM.vehicles.get(SELF.vehicle_id), SIM.sim_timestep_duration_seconds)" in d
+                # every non-failing result contains the commit of idle(this vehicle, the state's step duration)
+                ok = ok and "simulation_state_ops.modify_vehicle(SIM, " in d and ".idle(SIM.vehicles.get(SELF.vehicle_id), SIM.sim_timestep_duration_seconds)" in d
+        ok = ok and n_succ >= 1
         ctx.check(ok, "D1", "DU.idle-committed", f"{cname}._perform_update commits idle(this vehicle, step duration)", pu,
                   why_bad="idle result not committed / other duration", construct=f"{cname}:idle-commit")
 
